@@ -1019,6 +1019,13 @@ class TermAnalysis(Analysis):
                     items.append((("splat",), self.ev(v, st)))
                 else:
                     items.append((self.ev(k, st), self.ev(v, st)))
+            lead = [it for it in items if it[0] != ("splat",)]
+            if lead and len(lead) < len(items) and all(it[0] != ("splat",) for it in items[:len(lead)]):
+                # {k: v, ..., **more}: the keyed part updated with `more` (later entries win, as in the display)
+                out = ("dict", tuple(lead))
+                for _k, v in items[len(lead):]:
+                    out = ("mut", "update", out, (v,))
+                return out
             return ("dict", tuple(items))
         if isinstance(e, ast.Call):
             return self._call(e, st)
@@ -1155,6 +1162,25 @@ class TermAnalysis(Analysis):
         return ks[0], ks[-1], d[1][0][1][1] - d[1][0][0][1]
 
     def _call_norm(self, t: Term, e: ast.Call, st: State) -> Term:
+        if t[0] == "call" and t[1] == ("ext", "isinstance") and len(t[2]) == 2 and not t[3] and t[2][1][0] == "bin" and t[2][1][1] == "|":
+            # isinstance(x, A | B) is isinstance(x, (A, B))
+            def union(u):
+                return union(u[2]) + union(u[3]) if u[0] == "bin" and u[1] == "|" else [u]
+            t = ("call", t[1], (t[2][0], ("tuple", tuple(union(t[2][1])))), ())
+        if t[0] == "call" and t[1] == ("ext", "next") and 1 <= len(t[2]) <= 2 and not t[3] and t[2][0][0] == "comp" and t[2][0][1] == "gen" \
+                and len(t[2][0][3]) == 1 and t[2][0][3][0][2]:
+            # next((elt for x in xs if cond), default): the element the search stops at - some element x of xs for which cond holds - or
+            # the default when there is none (the shape a `for x in xs: if cond: r = elt; break` search has)
+            comp = t[2][0]
+            var, xs, conds = comp[3][0]
+            x = ("iter", xs)
+            sub_ = {("bound", var): x}
+            cond = replace(conds[0] if len(conds) == 1 else ("bool", "and", tuple(conds)), sub_)
+            return ("ite", cond, replace(comp[2], sub_), t[2][1] if len(t[2]) == 2 else ("top", "StopIteration"))
+        if t[0] == "call" and t[1][0] == "meth" and t[1][2] == "_asdict" and not t[2] and not t[3]:
+            rec = self._record(t[1][1])
+            if rec and rec["__tuple__"]:
+                return ("dict", tuple((const(f), rec[f]) for f in rec["__order__"]))          # NamedTuple(...)._asdict() is the mapping of its fields
         if t[0] == "call" and t[1] == ("ext", "map") and len(t[2]) == 2 and not t[3]:
             # map(f, xs) is (f(x) for x in xs)
             f, xs = t[2]
@@ -1398,6 +1424,8 @@ class TermAnalysis(Analysis):
     def _dyn_call(self, v, args, kwargs) -> Term:
         def leaves(x):
             return leaves(x[2]) + leaves(x[3]) if x[0] == "ite" else [x]
+        if v[0] == "call" and v[1][0] == "ext" and v[1][1] in ("operator.itemgetter", "operator.attrgetter") and v[2] and not v[3] and all(is_const(a) for a in v[2]):
+            v = const((v[1][1], tuple(a[1] for a in v[2])))          # itemgetter("a", "b")(x): the getter object applied at once
         lv = leaves(v)
         OPF = {"operator.pos": ("u", "pos"), "operator.neg": ("u", "neg"), "operator.not_": ("u", "not"), "operator.invert": ("u", "~"),
                "operator.add": ("b", "+"), "operator.sub": ("b", "-"), "operator.mul": ("b", "*"), "operator.or_": ("b", "|"), "operator.and_": ("b", "&"),
@@ -1461,6 +1489,9 @@ class TermAnalysis(Analysis):
             # in-place mutation of a tracked local / self attribute
             if f.attr in MUTATORS and k is not None:
                 new = ("mut", f.attr, recv, args)
+                if "." not in k and isinstance(recv, tuple) and recv and recv[0] == "attr" and recv[1][0] == "param" and recv[1][1] in self.param_names:
+                    # the local is an alias of an attribute (x = self.items; x.add(v)): the object the attribute holds is what changes
+                    st.env[f"{recv[1][1]}.{recv[2]}"] = new
                 if f.attr not in ("pop", "popleft", "setdefault"):
                     st.env[k] = new
                     return const(None) if f.attr != "put_nowait" else ("call", ("meth", recv, f.attr), args, kwargs)
@@ -1510,7 +1541,7 @@ class TermAnalysis(Analysis):
                 kind = "func" if (q in self.prog.funcs or q in self.prog.classes) else "ext"
                 return ("call", (kind, q), args, kwargs)
             return ("call", ("dyn", g), args, kwargs)
-        return ("call", ("dyn", self.ev(f, st)), args, kwargs)
+        return self._dyn_call(self.ev(f, st), args, kwargs)
 
 
 def _integer_valued(t) -> bool:
@@ -1600,8 +1631,7 @@ class TermEngine(Engine):
                 if own_jumps(list(ast.iter_child_nodes(n))):
                     return True
             return False
-        if own_jumps(s.body):
-            return None
+        has_break = own_jumps(s.body)
 
         def pure(nodes):
             # only loops that merely accumulate into locals are unrolled: per-node terms of such a body carry no site of interest
@@ -1610,7 +1640,7 @@ class TermEngine(Engine):
                     tg = n.targets if isinstance(n, ast.Assign) else [n.target]
                     if not all(isinstance(t, ast.Name) or (isinstance(t, ast.Attribute) and isinstance(t.value, ast.Name)) for t in tg):
                         return False
-                elif isinstance(n, (ast.Continue, ast.Return, ast.Raise)):
+                elif isinstance(n, (ast.Continue, ast.Return, ast.Raise, ast.Break)):
                     continue
                 elif isinstance(n, ast.If):
                     if not (pure(n.body) and pure(n.orelse)):
@@ -1644,6 +1674,7 @@ class TermEngine(Engine):
             self.a.ev(s.iter, state.copy())
             out = Completions()
             cur = [state]
+            broken = []
             for x in elts:
                 nxt = []
                 for st0 in cur:
@@ -1653,10 +1684,14 @@ class TermEngine(Engine):
                     out.returns += bo.returns
                     out.raises += bo.raises
                     nxt += bo.normal + bo.continues
+                    broken += bo.breaks          # `break`: the remaining elements are skipped
                 j = self._join(nxt)
                 cur = [j] if j is not None else []
                 if not cur:
                     break
+            if broken:
+                j = self._join(cur + broken)
+                cur = [j] if j is not None else []
             out.normal += cur
             return out
         widened = self.a.widen_loop(s, state)
@@ -1673,6 +1708,21 @@ class TermEngine(Engine):
                          "returns": list(body_out.returns), "raises": list(body_out.raises)}
         out.returns += body_out.returns
         out.raises += body_out.raises
+        # a name the body leaves alone on every back edge (it is only assigned on the way out - `x = ...; break`) holds, at the loop
+        # head, what it held before the loop: its loop-head placeholder is that value
+        stable = {}
+        if entry is not None:
+            for k, v in widened.env.items():
+                if isinstance(v, tuple) and v and v[0] == "loopvar" and state.env.get(k) is not None and state.env.get(k) != v \
+                        and all(st_.env.get(k) == v for st_ in list(body_out.normal) + list(body_out.continues)):
+                    stable[v] = state.env[k]
+
+        def settle(st_):
+            if not stable or st_ is None:
+                return st_
+            return State({k: replace(v, stable) for k, v in st_.env.items()}, tuple((replace(c, stable), tr) for c, tr in st_.pc))
+        exit_state = settle(exit_state)
+        body_out.breaks = [settle(b) for b in body_out.breaks]
         exits = []
         if exit_state is not None:
             # conditions gathered inside the loop do not survive it
